@@ -475,6 +475,12 @@ _SIM_CV = ("is_similar of HvsrCurve / HvsrTraditional / Psd / HvsrAzimuthal unde
            "azimuths pairwise within 0.1 degree (loop invariant); HvsrAzimuthal.__eq__: similar and per-azimuth objects pairwise equal - the test the constructors apply.")
 S4_MORE["C18"] = S4_MORE.get("C18", "") + " " + _SIM_TS
 S4_MORE["C12"] += " " + _SIM_CV
+S4_MORE["C19"] += (" After the repairs F-21 / F-22 (/repo 4d4b3de, 3d8a081): _process_hvsr_and_report under contract - the worker once with the task's arguments in order, the "
+                   "file's name handed back exactly when the pipeline raised for it, no exception leaves it (so the other tasks of a chunk are run); cli(): one result per task, a "
+                   "ClickException leaves it exactly when some file failed, after the one batch; _process_hvsr[figures on]: the plotting function raises under a named condition and the "
+                   "result file has been written when that exception leaves the worker. Bounded: in every run batches containing a file that cannot be processed (every other file "
+                   "still gets the single-file output, for two - thorough six - positions / --nproc values), one file whose figure cannot be drawn (two centre frequencies), and a "
+                   "diffuse-field run with figures on and --ymax below the curve; the exit status is not compared (not part of the property).")
 _R56 = {
  "C01": "centre frequencies in any order (descending, shuffled); the same recording objects processed a second time with another method, compared with the curves of the pristine samples",
  "C02": "frequency axes that are not equally spaced; samples that are exactly zero in every row, unit impulses; a window whose only sample lies 4e-7 .. 8e-7 inside its edge",
